@@ -95,7 +95,7 @@ def build(case):
             theta_funcs[n] = (lambda g, a=a: a)
             continue
         shape = dep[n]
-        if variant in ("signature", "zero_at_origin"):  # noqa
+        if variant in ("signature", "zero_at_origin", "template_decoy"):
             d = DependenceFunction(mk_func(shape, a, b, True))
             theta_funcs[n] = (lambda g, s=shape, a=a, b=b: raw(s, g, a, b))
         elif variant == "assigned":
@@ -130,6 +130,13 @@ def build(case):
         params[n] = d
     template = cls(**fixed_kw)
     cond = ConditionalDistribution(template, params)
+    if variant == "template_decoy":
+        # the template's plain attributes are given other values afterwards (say, as start values for a later fit): the
+        # FIXED values (f_<name>) are what a conditional distribution uses for its non-dependent parameters
+        for obj in {id(template): template, id(cond.distribution): cond.distribution}.values():
+            for n, r in zip(names, roles):
+                if n not in dep:
+                    setattr(obj, n, COEF[r][0] * 1.7 + 0.3)
 
     def theta(g):
         return {n: float(theta_funcs[n](g)) for n in names}
@@ -307,6 +314,8 @@ def main(ctx):
             for dep_names in itertools.combinations(names, k):
                 for assign in itertools.product(shapes, repeat=k):
                     variants = ["signature", "assigned", "assigned_reversed"]
+                    if k < len(names):
+                        variants += ["template_decoy"]
                     if assign == ("const",) * k and k == 1:
                         variants += ["int_constant"]
                     if assign == ("inc",) * k:
